@@ -1,5 +1,868 @@
+// C32: TRC updates are accepted only with the required votes and signatures.
 package main
 
-import "verifharness/vlib"
+import (
+	"bytes"
+	"flag"
+	"crypto"
+	"crypto/x509"
+	"encoding/asn1"
+	"fmt"
+	"sort"
+	"strings"
+	"time"
 
-func runC32(e *vlib.Env, w *world) {}
+	"github.com/scionproto/scion/pkg/addr"
+	"github.com/scionproto/scion/pkg/scrypto"
+	"github.com/scionproto/scion/pkg/scrypto/cms/protocol"
+	"github.com/scionproto/scion/pkg/scrypto/cppki"
+
+	"verifharness/vlib"
+)
+
+// ucase is one verification case: predecessor payload (may be nil), successor payload and the
+// list of (certificate, key) pairs that sign it, plus raw signer-info edits.
+type ucase struct {
+	pred    *cppki.TRC
+	t       cppki.TRC
+	signers []*x509.Certificate // signed with the pool key of the certificate
+	post    []func(w *world, sis []protocol.SignerInfo) []protocol.SignerInfo
+	notes   []string
+}
+
+func idxOf(t *cppki.TRC, ct cppki.CertType) []int {
+	var r []int
+	for i, c := range t.Certificates {
+		if k, err := cppki.ValidateCert(c); err == nil && k == ct {
+			r = append(r, i)
+		}
+	}
+	return r
+}
+
+func (w *world) perm(xs []int) []int {
+	p := append([]int(nil), xs...)
+	for i := len(p) - 1; i > 0; i-- {
+		j := w.r.Intn(i + 1)
+		p[i], p[j] = p[j], p[i]
+	}
+	return p
+}
+
+func indexOfCert(t *cppki.TRC, c *x509.Certificate) int {
+	for i, x := range t.Certificates {
+		if x == c {
+			return i
+		}
+	}
+	return -1
+}
+
+// next version of a pool certificate (same subject, other key and serial), nil if none.
+func (w *world) nextVersion(c *x509.Certificate) *x509.Certificate {
+	for _, grp := range []*[nAS][]*pc{&w.sens, &w.reg, &w.root} {
+		for i := 0; i < nAS; i++ {
+			for v := 0; v+1 < len(grp[i]); v++ {
+				if grp[i][v].Cert == c {
+					return grp[i][v+1].Cert
+				}
+			}
+		}
+	}
+	return nil
+}
+
+// newVoterCerts: voting certificates of t that are not byte-identical in pred (statement level).
+func newVoterCerts(pred, t *cppki.TRC) []*x509.Certificate {
+	var r []*x509.Certificate
+	for _, ct := range []cppki.CertType{cppki.Sensitive, cppki.Regular} {
+		for _, i := range idxOf(t, ct) {
+			c := t.Certificates[i]
+			found := false
+			if pred != nil {
+				for _, j := range idxOf(pred, ct) {
+					if bytes.Equal(pred.Certificates[j].Raw, c.Raw) {
+						found = true
+					}
+				}
+			}
+			if !found {
+				r = append(r, c)
+			}
+		}
+	}
+	return r
+}
+
+// validPred: a valid predecessor (base or not) built from version-0 pool certificates.
+func (w *world) validPred() *cppki.TRC {
+	p := w.validBase()
+	if w.r.Chance(40) {
+		p.T.ID.Serial += scrypto.Version(w.r.Range(1, 3))
+		p.T.Votes = []int{0}
+		p.T.GracePeriod = time.Hour
+	}
+	t := p.T
+	return &t
+}
+
+// regularUpdate / sensitiveUpdate build a successor that the statement allows, with the signer
+// set it needs.
+func (w *world) regularUpdate(pred *cppki.TRC) *ucase {
+	u := &ucase{pred: pred, t: cloneTRC(*pred), notes: []string{"regular"}}
+	t := &u.t
+	t.ID.Serial = pred.ID.Serial + 1
+	t.GracePeriod = time.Duration(w.r.Intn(4)) * time.Hour
+	t.Description = "regular update"
+	regs := idxOf(pred, cppki.Regular)
+	must := map[int]bool{}
+	for _, i := range regs { // re-issue some regular voters: they must vote
+		if w.r.Chance(30) {
+			if n := w.nextVersion(pred.Certificates[i]); n != nil {
+				t.Certificates[i] = n
+				must[i] = true
+			}
+		}
+	}
+	for _, i := range idxOf(pred, cppki.Root) { // re-issue some roots: the old root acknowledges
+		if w.r.Chance(30) {
+			if n := w.nextVersion(pred.Certificates[i]); n != nil {
+				t.Certificates[i] = n
+				u.signers = append(u.signers, pred.Certificates[i])
+			}
+		}
+	}
+	if w.r.Chance(30) {
+		w.shuffle(t.Certificates)
+	}
+	var votes []int
+	for _, i := range w.perm(regs) {
+		if must[i] || len(votes) < pred.Quorum || w.r.Chance(30) {
+			votes = append(votes, i)
+		}
+	}
+	t.Votes = w.perm(votes)
+	for _, i := range t.Votes {
+		u.signers = append(u.signers, pred.Certificates[i])
+	}
+	u.signers = append(u.signers, newVoterCerts(pred, t)...)
+	return u
+}
+
+func (w *world) sensitiveUpdate(pred *cppki.TRC) *ucase {
+	u := &ucase{pred: pred, t: cloneTRC(*pred), notes: []string{"sensitive"}}
+	t := &u.t
+	t.ID.Serial = pred.ID.Serial + 1
+	t.GracePeriod = time.Duration(w.r.Intn(4)) * time.Hour
+	t.Description = "sensitive update"
+	switch w.r.Intn(7) {
+	case 0: // nothing else changes
+	case 1: // core / authoritative ASes change
+		t.CoreASes = append(t.CoreASes, addr.AS(0xff0000000200+uint64(w.r.Intn(9))))
+		u.notes = append(u.notes, "core+")
+	case 2: // re-issue sensitive voters
+		for _, i := range idxOf(pred, cppki.Sensitive) {
+			if w.r.Bool() {
+				if n := w.nextVersion(pred.Certificates[i]); n != nil {
+					t.Certificates[i] = n
+				}
+			}
+		}
+		u.notes = append(u.notes, "sens-reissued")
+	case 3: // add voters / roots of an AS not yet present
+		for a := 0; a < nAS; a++ {
+			for _, g := range []*[nAS][]*pc{&w.sens, &w.reg, &w.root} {
+				if !hasCert(t, g[a][0].Cert) && !hasCert(t, g[a][1].Cert) && w.r.Chance(25) {
+					w.insertCert(t, g[a][0].Cert)
+				}
+			}
+		}
+		u.notes = append(u.notes, "certs+")
+	case 4: // remove a certificate while staying valid
+		for tries := 0; tries < 4; tries++ {
+			i := w.r.Intn(len(t.Certificates))
+			c := cloneTRC(*t)
+			c.Certificates = append(c.Certificates[:i:i], c.Certificates[i+1:]...)
+			c.Quorum = min(c.Quorum, max(1, min(countKind(&c, cppki.Sensitive), countKind(&c, cppki.Regular))))
+			if c.Validate() == nil {
+				*t = c
+				break
+			}
+		}
+		u.notes = append(u.notes, "certs-")
+	case 5: // quorum changes
+		t.Quorum = w.r.Range(1, min(countKind(t, cppki.Sensitive), countKind(t, cppki.Regular)))
+		u.notes = append(u.notes, "quorum")
+	case 6: // replace everything
+		n := w.validBase()
+		t.Certificates, t.Quorum, t.CoreASes, t.AuthoritativeASes = n.T.Certificates, n.T.Quorum, n.T.CoreASes, n.T.AuthoritativeASes
+		u.notes = append(u.notes, "all-new")
+	}
+	sens := idxOf(pred, cppki.Sensitive)
+	var votes []int
+	for _, i := range w.perm(sens) {
+		if len(votes) < pred.Quorum || w.r.Chance(30) {
+			votes = append(votes, i)
+		}
+	}
+	t.Votes = votes
+	for _, i := range votes {
+		u.signers = append(u.signers, pred.Certificates[i])
+	}
+	u.signers = append(u.signers, newVoterCerts(pred, t)...)
+	return u
+}
+
+func (w *world) baseCase() *ucase {
+	p := w.validBase()
+	u := &ucase{t: p.T, notes: []string{"base"}}
+	u.signers = newVoterCerts(nil, &u.t)
+	return u
+}
+
+// signInfos signs payload bytes raw with each (certificate, pool key).
+func (w *world) signInfos(raw []byte, certs []*x509.Certificate) []protocol.SignerInfo {
+	eci, err := protocol.NewDataEncapsulatedContentInfo(raw)
+	if err != nil {
+		panic(err)
+	}
+	sd, err := protocol.NewSignedData(eci)
+	if err != nil {
+		panic(err)
+	}
+	for _, c := range certs {
+		if err := sd.AddSignerInfo([]*x509.Certificate{c}, w.keys[c]); err != nil {
+			panic(err)
+		}
+	}
+	return sd.SignerInfos
+}
+
+// forge: a signer info made with key of `with` but naming certificate `as`.
+func (w *world) forge(raw []byte, as, with *x509.Certificate) protocol.SignerInfo {
+	si := w.signInfos(raw, []*x509.Certificate{with})[0]
+	sid, err := protocol.NewIssuerAndSerialNumber(as)
+	if err != nil {
+		panic(err)
+	}
+	si.SID = sid
+	return si
+}
+
+func (u *ucase) build(w *world) (cppki.SignedTRC, error) {
+	t := u.t
+	verr := t.Validate()
+	if verr == nil {
+		raw, err := t.Encode()
+		if err != nil {
+			t.Raw = []byte("unencodable payload")
+		} else {
+			t.Raw = raw
+		}
+	} else {
+		t.Raw = []byte("invalid payload")
+	}
+	sis := w.signInfos(t.Raw, u.signers)
+	// shuffle the signer infos: their order must not matter
+	for i := len(sis) - 1; i > 0; i-- {
+		j := w.r.Intn(i + 1)
+		sis[i], sis[j] = sis[j], sis[i]
+	}
+	u.t = t
+	for _, f := range u.post {
+		sis = f(w, sis)
+	}
+	return cppki.SignedTRC{TRC: t, SignerInfos: sis}, verr
+}
+
+// signedBy: some signer info names c (as the real FindCertificate sees it) and verifies under c.
+func signedBy(s *cppki.SignedTRC, c *x509.Certificate) bool {
+	for _, si := range s.SignerInfos {
+		if f, err := si.FindCertificate([]*x509.Certificate{c}); err == nil && f == c {
+			if s.VerifVerifySignerInfo(c, si) == nil {
+				return true
+			}
+		}
+	}
+	return false
+}
+
+func kindOf(c *x509.Certificate) cppki.CertType {
+	k, err := cppki.ValidateCert(c)
+	if err != nil {
+		return cppki.Invalid
+	}
+	return k
+}
+
+// c32Broken evaluates the statement of C32 on an ACCEPTED (pred, signed) pair, directly on the
+// real objects: the names of the clauses that do not hold.
+func c32Broken(pred *cppki.TRC, s *cppki.SignedTRC) []string {
+	var v []string
+	add := func(c bool, n string) {
+		if c {
+			v = append(v, n)
+		}
+	}
+	t := &s.TRC
+	if len(violated(t)) > 0 {
+		add(true, "invalid-payload")
+	}
+	if t.ID.Base == t.ID.Serial {
+		add(pred != nil, "base-with-predecessor")
+		for _, c := range t.Certificates {
+			if k := kindOf(c); k == cppki.Sensitive || k == cppki.Regular {
+				add(!signedBy(s, c), "base-voter-not-signed")
+			}
+		}
+		return v
+	}
+	if pred == nil {
+		return append(v, "no-predecessor")
+	}
+	add(pred.ID.ISD != t.ID.ISD, "isd")
+	add(pred.ID.Base != t.ID.Base, "base-number")
+	add(pred.ID.Serial+1 != t.ID.Serial || pred.ID.Serial+1 == 0, "serial")
+	add(pred.NoTrustReset != t.NoTrustReset, "no-trust-reset")
+	distinct := map[int]bool{}
+	nSens, nReg := 0, 0
+	for _, i := range t.Votes {
+		if i < 0 || i >= len(pred.Certificates) {
+			add(true, "vote-out-of-range")
+			continue
+		}
+		switch kindOf(pred.Certificates[i]) {
+		case cppki.Sensitive:
+			nSens++
+		case cppki.Regular:
+			nReg++
+		default:
+			add(true, "vote-by-non-voter")
+		}
+		if !distinct[i] {
+			add(!signedBy(s, pred.Certificates[i]), "voter-not-signed")
+		}
+		distinct[i] = true
+	}
+	add(len(distinct) < pred.Quorum, "quorum-of-distinct-voters")
+	add(len(distinct) != len(t.Votes), "duplicate-vote")
+	add(nSens > 0 && nReg > 0, "mixed-votes")
+	for _, c := range newVoterCerts(pred, t) {
+		add(!signedBy(s, c), "new-voter-not-signed")
+	}
+	if nReg > 0 && nSens == 0 { // regular update
+		add(pred.Quorum != t.Quorum, "regular-quorum-changed")
+		add(fmt.Sprint(pred.CoreASes) != fmt.Sprint(t.CoreASes), "regular-core-changed")
+		add(fmt.Sprint(pred.AuthoritativeASes) != fmt.Sprint(t.AuthoritativeASes), "regular-auth-changed")
+		raws := func(x *cppki.TRC, ct cppki.CertType) []string {
+			var r []string
+			for _, i := range idxOf(x, ct) {
+				r = append(r, string(x.Certificates[i].Raw))
+			}
+			sort.Strings(r)
+			return r
+		}
+		add(strings.Join(raws(pred, cppki.Sensitive), "|") != strings.Join(raws(t, cppki.Sensitive), "|"),
+			"regular-sensitive-changed")
+		for _, ct := range []cppki.CertType{cppki.Root, cppki.Regular} {
+			subj := func(x *cppki.TRC) []string {
+				var r []string
+				for _, i := range idxOf(x, ct) {
+					r = append(r, string(x.Certificates[i].RawSubject))
+				}
+				sort.Strings(r)
+				return r
+			}
+			if strings.Join(subj(pred), "|") != strings.Join(subj(t), "|") {
+				// distinguish "names differ only in attributes that cppki.equalName does not see"
+				names := func(x *cppki.TRC) []string {
+					var r []string
+					for _, i := range idxOf(x, ct) {
+						r = append(r, x.Certificates[i].Subject.ToRDNSequence().String())
+					}
+					sort.Strings(r)
+					return r
+				}
+				if strings.Join(names(pred), "|") == strings.Join(names(t), "|") {
+					add(true, "regular-update-dn-isd-as-changed")
+				} else {
+					add(true, map[cppki.CertType]string{cppki.Root: "regular-root-added-or-removed",
+						cppki.Regular: "regular-voter-added-or-removed"}[ct])
+				}
+			}
+			for _, i := range idxOf(pred, ct) {
+				pc := pred.Certificates[i]
+				for _, j := range idxOf(t, ct) {
+					c := t.Certificates[j]
+					if bytes.Equal(pc.RawSubject, c.RawSubject) && !bytes.Equal(pc.Raw, c.Raw) {
+						if ct == cppki.Regular {
+							add(!distinct[i], "replaced-voter-did-not-vote")
+						} else {
+							add(!signedBy(s, pc), "replaced-root-did-not-acknowledge")
+						}
+					}
+				}
+			}
+		}
+	}
+	return v
+}
+
+type replayUpd struct {
+	Pred, Succ *replayTRC
+	Signers    []string
+	Notes      []string
+	Op         string
+}
+
+func (w *world) runCase(e *vlib.Env, u *ucase) {
+	s, verr := u.build(w)
+	in := w.in
+	// candidates for the verification table: every certificate of both payloads
+	var cands []*x509.Certificate
+	if u.pred != nil {
+		cands = append(cands, u.pred.Certificates...)
+	}
+	cands = append(cands, s.TRC.Certificates...)
+	sis := make([]string, len(s.SignerInfos))
+	for i, si := range s.SignerInfos {
+		sis[i] = in.signer(&s, si, cands)
+	}
+	sisS := "-"
+	if len(sis) > 0 {
+		sisS = strings.Join(sis, ",")
+	}
+	predS := "nil"
+	if u.pred != nil {
+		predS = in.trc(u.pred)
+	}
+	op := "upd " + in.trc(&s.TRC) + " P " + predS + " S " + sisS
+
+	isBase := s.TRC.ID.Base == s.TRC.ID.Serial
+	var upd cppki.Update
+	var uerr error
+	ans, ok := vlib.Safe(func() string {
+		if !isBase {
+			upd, uerr = s.TRC.ValidateUpdate(u.pred)
+		}
+		err := s.Verify(u.pred)
+		var head string
+		switch {
+		case err == nil:
+			head = "ok"
+		case isBase && u.pred != nil: // checked before the payload is looked at
+			head = "base-pred"
+		case verr != nil:
+			head = "val " + strings.TrimPrefix(valErr(verr), "err ")
+		case !isBase && uerr != nil:
+			head = "upd-rej"
+		default:
+			head = "sig-rej"
+		}
+		if !isBase && uerr == nil {
+			idx := func(t *cppki.TRC, cs []*x509.Certificate, sorted bool) string {
+				var r []int
+				for _, c := range cs {
+					r = append(r, indexOfCert(t, c))
+				}
+				if sorted {
+					sort.Ints(r)
+				}
+				return joinInts(r)
+			}
+			ty := "sensitive"
+			if upd.Type == cppki.RegularUpdate {
+				ty = "regular"
+			}
+			head += fmt.Sprintf(" | %s nv=%s v=%s a=%s", ty, idx(&s.TRC, upd.NewVoters, true),
+				idx(u.pred, upd.Votes, false), idx(u.pred, upd.RootAcknowledgments, true))
+		}
+		if err == nil {
+			if b := c32Broken(u.pred, &s); len(b) > 0 {
+				e.Violate("C32/accepted-"+b[0], fmt.Sprintf("SignedTRC.Verify accepts although %v", b),
+					w.replayUpd(u, sis, op))
+			}
+		}
+		return head
+	})
+	if !ok {
+		e.Violate("C32/panic", "Verify/ValidateUpdate panicked: "+ans, w.replayUpd(u, sis, op))
+	}
+	tag := strings.SplitN(ans, " ", 2)[0]
+	if strings.Contains(ans, "| regular") {
+		tag += "/regular"
+	} else if strings.Contains(ans, "| sensitive") {
+		tag += "/sensitive"
+	} else if isBase {
+		tag += "/base"
+	}
+	if strings.HasPrefix(ans, "val ") {
+		tag = ans
+	}
+	e.Op(op, ans, tag)
+	e.Sample(map[string]any{"notes": u.notes, "impl": ans})
+}
+
+func (w *world) replayUpd(u *ucase, sis []string, op string) replayUpd {
+	r := replayUpd{Signers: sis, Notes: u.notes, Op: op}
+	st := w.replay(&payload{T: u.t})
+	r.Succ = &st
+	if u.pred != nil {
+		pt := w.replay(&payload{T: *u.pred})
+		r.Pred = &pt
+	}
+	return r
+}
+
+// ---- case mutations (each breaks one clause of the statement, or is neutral)
+
+type umut struct {
+	name string
+	f    func(w *world, u *ucase)
+}
+
+func dropSigner(u *ucase, c *x509.Certificate) {
+	var r []*x509.Certificate
+	for _, x := range u.signers {
+		if x != c {
+			r = append(r, x)
+		}
+	}
+	u.signers = r
+}
+
+func (w *world) otherClassIdx(u *ucase) int { // index in pred of a voter of the class that is NOT voting
+	if len(u.t.Votes) == 0 || u.pred == nil || u.t.Votes[0] < 0 || u.t.Votes[0] >= len(u.pred.Certificates) {
+		return -1
+	}
+	k := kindOf(u.pred.Certificates[u.t.Votes[0]])
+	want := cppki.Sensitive
+	if k == cppki.Sensitive {
+		want = cppki.Regular
+	}
+	ix := idxOf(u.pred, want)
+	if len(ix) == 0 {
+		return -1
+	}
+	return ix[w.r.Intn(len(ix))]
+}
+
+var umuts = []umut{
+	{"none", func(w *world, u *ucase) {}},
+	{"dup-vote", func(w *world, u *ucase) {
+		if n := len(u.t.Votes); n > 0 {
+			u.t.Votes = append(u.t.Votes, u.t.Votes[w.r.Intn(n)])
+			u.t.Votes = w.perm(u.t.Votes)
+		}
+	}},
+	{"dup-vote-replacing", func(w *world, u *ucase) { // same count, one voter twice instead of another
+		if n := len(u.t.Votes); n > 1 && u.pred != nil && u.t.Votes[1] >= 0 && u.t.Votes[1] < len(u.pred.Certificates) {
+			dropSigner(u, u.pred.Certificates[u.t.Votes[1]])
+			u.t.Votes[1] = u.t.Votes[0]
+		}
+	}},
+	{"too-few-votes", func(w *world, u *ucase) {
+		if u.pred != nil && u.pred.Quorum >= 1 && len(u.t.Votes) >= u.pred.Quorum {
+			u.t.Votes = u.t.Votes[:u.pred.Quorum-1]
+		}
+	}},
+	{"wrong-class-vote-appended", func(w *world, u *ucase) {
+		if i := w.otherClassIdx(u); i >= 0 {
+			u.t.Votes = append(u.t.Votes, i)
+			u.signers = append(u.signers, u.pred.Certificates[i])
+		}
+	}},
+	{"wrong-class-vote-first", func(w *world, u *ucase) {
+		if i := w.otherClassIdx(u); i >= 0 {
+			u.t.Votes = append([]int{i}, u.t.Votes...)
+			u.signers = append(u.signers, u.pred.Certificates[i])
+		}
+	}},
+	{"root-votes", func(w *world, u *ucase) {
+		if u.pred == nil {
+			return
+		}
+		if ix := idxOf(u.pred, cppki.Root); len(ix) > 0 {
+			i := ix[w.r.Intn(len(ix))]
+			u.t.Votes = append(u.t.Votes, i)
+			u.signers = append(u.signers, u.pred.Certificates[i])
+		}
+	}},
+	{"vote-out-of-range", func(w *world, u *ucase) {
+		if u.pred == nil {
+			return
+		}
+		n := len(u.pred.Certificates)
+		bad := []int{-1, n, n + 1, n + 100, -n, 1 << 40}[w.r.Intn(6)]
+		if w.r.Bool() {
+			u.t.Votes = append(u.t.Votes, bad)
+		} else {
+			u.t.Votes = append([]int{bad}, u.t.Votes...)
+		}
+	}},
+	{"missing-signature", func(w *world, u *ucase) {
+		if n := len(u.signers); n > 0 {
+			dropSigner(u, u.signers[w.r.Intn(n)])
+		}
+	}},
+	{"no-signatures", func(w *world, u *ucase) { u.signers = nil }},
+	{"corrupt-signature", func(w *world, u *ucase) {
+		u.post = append(u.post, func(w *world, sis []protocol.SignerInfo) []protocol.SignerInfo {
+			if len(sis) > 0 {
+				i := w.r.Intn(len(sis))
+				sig := append([]byte(nil), sis[i].Signature...)
+				sig[len(sig)-1-w.r.Intn(8)] ^= 1 << uint(w.r.Intn(8))
+				sis[i].Signature = sig
+			}
+			return sis
+		})
+	}},
+	{"forged-signer", func(w *world, u *ucase) { // signed with somebody else's key
+		if n := len(u.signers); n > 0 {
+			c := u.signers[w.r.Intn(n)]
+			dropSigner(u, c)
+			u.post = append(u.post, func(w *world, sis []protocol.SignerInfo) []protocol.SignerInfo {
+				return append(sis, w.forge(u.t.Raw, c, w.otherISD[0].Cert))
+			})
+		}
+	}},
+	{"signature-over-other-payload", func(w *world, u *ucase) {
+		if n := len(u.signers); n > 0 {
+			c := u.signers[w.r.Intn(n)]
+			dropSigner(u, c)
+			u.post = append(u.post, func(w *world, sis []protocol.SignerInfo) []protocol.SignerInfo {
+				return append(sis, w.signInfos([]byte("another payload"), []*x509.Certificate{c})...)
+			})
+		}
+	}},
+	{"extra-unrelated-signer", func(w *world, u *ucase) { u.signers = append(u.signers, w.otherISD[1].Cert) }},
+	{"extra-root-signer", func(w *world, u *ucase) {
+		if ix := idxOf(&u.t, cppki.Root); len(ix) > 0 {
+			u.signers = append(u.signers, u.t.Certificates[ix[0]])
+		}
+	}},
+	{"duplicate-signer-info", func(w *world, u *ucase) {
+		if n := len(u.signers); n > 0 {
+			u.signers = append(u.signers, u.signers[w.r.Intn(n)])
+		}
+	}},
+	{"unsupported-sid-version", func(w *world, u *ucase) {
+		u.post = append(u.post, func(w *world, sis []protocol.SignerInfo) []protocol.SignerInfo {
+			si := w.signInfos(u.t.Raw, []*x509.Certificate{w.otherISD[1].Cert})[0]
+			si.Version = []int{0, 2, 4}[w.r.Intn(3)]
+			return append(sis, si)
+		})
+	}},
+	{"sid-by-subject-key-id", func(w *world, u *ucase) { // CMS v3 identifiers are honoured too
+		u.post = append(u.post, func(w *world, sis []protocol.SignerInfo) []protocol.SignerInfo {
+			if len(sis) > 0 && len(u.signers) > 0 {
+				i := w.r.Intn(len(sis))
+				for _, c := range u.signers {
+					if f, err := sis[i].FindCertificate([]*x509.Certificate{c}); err == nil && f == c {
+						sis[i].Version = 3
+						sis[i].SID = asn1.RawValue{Class: asn1.ClassContextSpecific, Tag: 0, Bytes: skiValue(c)}
+						if w.r.Chance(30) { // a key id that matches nobody
+							sis[i].SID.Bytes = []byte{4, 2, 1, 2}
+						}
+						break
+					}
+				}
+			}
+			return sis
+		})
+	}},
+	{"serial+2", func(w *world, u *ucase) { u.t.ID.Serial++ }},
+	{"serial-same", func(w *world, u *ucase) {
+		if u.pred != nil && u.pred.ID.Serial > u.pred.ID.Base {
+			u.t.ID.Serial = u.pred.ID.Serial
+		}
+	}},
+	{"base-number-changed", func(w *world, u *ucase) {
+		if u.t.ID.Base > 1 {
+			u.t.ID.Base--
+		} else if u.t.ID.Serial > u.t.ID.Base+1 {
+			u.t.ID.Base++
+		}
+	}},
+	{"no-trust-reset-flipped", func(w *world, u *ucase) { u.t.NoTrustReset = !u.t.NoTrustReset }},
+	{"nil-predecessor", func(w *world, u *ucase) { u.pred = nil }},
+	{"quorum-changed", func(w *world, u *ucase) {
+		m := min(countKind(&u.t, cppki.Sensitive), countKind(&u.t, cppki.Regular))
+		if u.t.Quorum < m {
+			u.t.Quorum++
+		} else if u.t.Quorum > 1 {
+			u.t.Quorum--
+		}
+	}},
+	{"core-changed", func(w *world, u *ucase) {
+		if n := len(u.t.CoreASes); n > 1 && w.r.Bool() {
+			u.t.CoreASes[0], u.t.CoreASes[n-1] = u.t.CoreASes[n-1], u.t.CoreASes[0] // reordering counts
+		} else {
+			u.t.CoreASes = append(u.t.CoreASes, 0xff0000000300)
+		}
+	}},
+	{"auth-changed", func(w *world, u *ucase) { u.t.AuthoritativeASes = append(u.t.AuthoritativeASes, 0xff0000000301) }},
+	{"sensitive-reissued", func(w *world, u *ucase) {
+		if ix := idxOf(&u.t, cppki.Sensitive); len(ix) > 0 {
+			i := ix[w.r.Intn(len(ix))]
+			if n := w.nextVersion(u.t.Certificates[i]); n != nil {
+				u.t.Certificates[i] = n
+				u.signers = append(u.signers, n)
+			}
+		}
+	}},
+	{"cert-added", func(w *world, u *ucase) {
+		g := []*[nAS][]*pc{&w.sens, &w.reg, &w.root}[w.r.Intn(3)]
+		for a := 0; a < nAS; a++ {
+			if !hasCert(&u.t, g[a][0].Cert) && !hasCert(&u.t, g[a][1].Cert) && !hasCert(&u.t, g[a][2].Cert) {
+				w.insertCert(&u.t, g[a][0].Cert)
+				u.signers = append(u.signers, g[a][0].Cert)
+				return
+			}
+		}
+	}},
+	{"cert-removed", func(w *world, u *ucase) {
+		ct := []cppki.CertType{cppki.Sensitive, cppki.Regular, cppki.Root}[w.r.Intn(3)]
+		if ix := idxOf(&u.t, ct); len(ix) > 0 {
+			i := ix[w.r.Intn(len(ix))]
+			u.t.Certificates = append(u.t.Certificates[:i:i], u.t.Certificates[i+1:]...)
+		}
+	}},
+	{"cert-swapped-for-other-subject", func(w *world, u *ucase) { // same count, another subject
+		ct := []cppki.CertType{cppki.Regular, cppki.Root}[w.r.Intn(2)]
+		g := map[cppki.CertType]*[nAS][]*pc{cppki.Regular: &w.reg, cppki.Root: &w.root}[ct]
+		if ix := idxOf(&u.t, ct); len(ix) > 0 {
+			i := ix[w.r.Intn(len(ix))]
+			for a := 0; a < nAS; a++ {
+				if !hasCert(&u.t, g[a][0].Cert) && !hasCert(&u.t, g[a][1].Cert) && !hasCert(&u.t, g[a][2].Cert) {
+					u.t.Certificates[i] = g[a][0].Cert
+					u.signers = append(u.signers, g[a][0].Cert)
+					return
+				}
+			}
+		}
+	}},
+	{"reissued-voter-does-not-vote", func(w *world, u *ucase) {
+		if u.pred == nil {
+			return
+		}
+		for _, i := range idxOf(u.pred, cppki.Regular) {
+			voted := false
+			for _, v := range u.t.Votes {
+				voted = voted || v == i
+			}
+			j := indexOfCert(&u.t, u.pred.Certificates[i])
+			if !voted && j >= 0 {
+				if n := w.nextVersion(u.pred.Certificates[i]); n != nil {
+					u.t.Certificates[j] = n
+					u.signers = append(u.signers, n)
+					return
+				}
+			}
+		}
+	}},
+	{"voter-moved-to-other-as", func(w *world, u *ucase) {
+		// the regular voter "1-ff00:0:110 regular" of AS 110 is replaced by a certificate with the
+		// same common name but ISD-AS 1-ff00:0:111 (another distinguished name, another key)
+		if u.pred == nil || !*flagDN {
+			return
+		}
+		i := indexOfCert(u.pred, w.reg[0][0].Cert)
+		j := indexOfCert(&u.t, w.reg[0][0].Cert)
+		if i < 0 || j < 0 {
+			return
+		}
+		u.t.Certificates[j] = w.sameCNOtherIA.Cert
+		u.signers = append(u.signers, w.sameCNOtherIA.Cert)
+		voted := false
+		for _, v := range u.t.Votes {
+			voted = voted || v == i
+		}
+		if !voted && len(u.t.Votes) > 0 && kindOf(u.pred.Certificates[u.t.Votes[0]]) == cppki.Regular {
+			u.t.Votes = append(u.t.Votes, i)
+			u.signers = append(u.signers, u.pred.Certificates[i])
+		}
+		u.notes = append(u.notes, "dn-changed")
+	}},
+	{"predecessor-with-ca-cert", func(w *world, u *ucase) {
+		if u.pred != nil {
+			p := cloneTRC(*u.pred)
+			p.Certificates = append(p.Certificates, w.ca.Cert)
+			u.pred = &p
+		}
+	}},
+	{"invalid-payload", func(w *world, u *ucase) {
+		m := mutators[w.r.Intn(len(mutators))]
+		m.f(w, &u.t)
+		u.notes = append(u.notes, m.name)
+	}},
+	{"base-with-predecessor", func(w *world, u *ucase) {
+		if u.pred != nil {
+			u.t.ID.Serial = u.t.ID.Base
+			u.t.Votes, u.t.GracePeriod = nil, 0
+		}
+	}},
+}
+
+// noIAWorld: predecessor of ISD 1 and successor of ISD 2 that are both valid payloads (voters
+// without ISD-AS attribute fit any ISD): the only way to reach the ISD comparison.
+func (w *world) isdChange() *ucase {
+	p := cppki.TRC{Version: 1, ID: cppki.TRCID{ISD: 1, Base: 1, Serial: 1},
+		Validity: cppki.Validity{NotBefore: sec(0), NotAfter: sec(5000)}, Quorum: 1,
+		CoreASes: []addr.AS{w.ases[0]}, AuthoritativeASes: []addr.AS{w.ases[0]},
+		Certificates: []*x509.Certificate{w.noIASens.Cert, w.noIAReg.Cert}}
+	u := &ucase{pred: &p, t: cloneTRC(p), notes: []string{"isd-change"}}
+	u.t.ID.Serial = 2
+	u.t.ID.ISD = 2
+	u.t.Votes = []int{w.r.Intn(2)}
+	u.signers = []*x509.Certificate{p.Certificates[u.t.Votes[0]]}
+	return u
+}
+
+var _ crypto.Signer
+
+// -dn enables the generator case "regular update that moves a voter to another ISD-AS while
+// keeping the common name" (candidate finding: cppki.equalName ignores the ISD-AS attribute).
+var flagDN = flag.Bool("dn", false, "generate regular updates whose DN changes only in the ISD-AS attribute")
+
+func runC32(e *vlib.Env, w *world) {
+	e.Rule = "predecessor/successor pairs from a pool of real certificates with real CMS signatures: regular updates " +
+		"(re-issued regular voters and roots), sensitive updates (7 shapes), base TRCs; each alone and with every case " +
+		"mutation (duplicate / wrong-class / out-of-range votes, too few votes, missing, corrupted, forged, foreign-payload " +
+		"and malformed signer infos, v3 signer ids, ID / flag changes, regular-update restrictions, invalid payloads, odd " +
+		"predecessors) and random pairs of mutations; real ValidateUpdate + SignedTRC.Verify vs the model (verdict, update " +
+		"type, new voters, votes, root acknowledgments); statement predicate on every accepted pair; distinct by op line"
+	mk := func() *ucase {
+		switch w.r.Intn(10) {
+		case 0, 1, 2, 3:
+			return w.regularUpdate(w.validPred())
+		case 4, 5, 6, 7:
+			return w.sensitiveUpdate(w.validPred())
+		case 8:
+			return w.isdChange()
+		default:
+			return w.baseCase()
+		}
+	}
+	for i := e.N(250, 3000); i > 0; i-- {
+		w.runCase(e, mk())
+	}
+	per := e.N(30, 400)
+	for _, m := range umuts {
+		for i := 0; i < per; i++ {
+			u := mk()
+			m.f(w, u)
+			u.notes = append(u.notes, m.name)
+			w.runCase(e, u)
+		}
+	}
+	for i := e.N(1200, 20000); i > 0; i-- {
+		u := mk()
+		for k := 0; k < 2; k++ {
+			m := umuts[w.r.Intn(len(umuts))]
+			m.f(w, u)
+			u.notes = append(u.notes, m.name)
+		}
+		w.runCase(e, u)
+	}
+}
